@@ -14,6 +14,7 @@ import SarpyModel.Drivers.Proj
 import SarpyModel.Drivers.Lifecycle
 import SarpyModel.Drivers.XmlFmt
 import SarpyModel.Drivers.Checker
+import SarpyModel.Drivers.Ortho
 namespace Sarpy.Drivers
 
 def step (line : String) : String :=
@@ -35,6 +36,7 @@ def step (line : String) : String :=
   | "life" :: rest => (lifeStep rest).getD "bad-op"
   | "xml" :: rest => (xmlStep rest).getD "bad-op"
   | "checker" :: rest => (checkerStep rest).getD "bad-op"
+  | "ortho" :: rest => (orthoStep rest).getD "bad-op"
   | _ => "bad-op"
 
 partial def loop (h : IO.FS.Stream) : IO Unit := do
